@@ -19,21 +19,21 @@ import (
 type c12Case struct {
 	Kind string `json:"kind"` // partition, par2g, race, sched
 	// partition / race
-	Len  int `json:"len,omitempty"`
-	D    int `json:"d,omitempty"`
-	P    int `json:"p,omitempty"`
-	GLo  int `json:"glo,omitempty"`
-	GHi  int `json:"ghi,omitempty"`
+	Len   int `json:"len,omitempty"`
+	D     int `json:"d,omitempty"`
+	P     int `json:"p,omitempty"`
+	GLo   int `json:"glo,omitempty"`
+	GHi   int `json:"ghi,omitempty"`
 	Procs int `json:"procs,omitempty"`
 	// sched
-	Op     string `json:"op,omitempty"`   // encode, reconstruct
-	G      int    `json:"g,omitempty"`
-	Gran   string `json:"gran,omitempty"` // kernel, stmt
-	Bound  int    `json:"bound,omitempty"` // preemption bound (-1 = unbounded)
-	Prefix []int  `json:"prefix,omitempty"`
-	Split  int    `json:"split,omitempty"`
-	Odd     bool  `json:"odd,omitempty"` // every input shard is a sub-slice starting at an odd offset of a larger buffer (as slices found displaced in a damaged file are)
-	NoSSSE3 bool  `json:"nossse3,omitempty"` // partition / par2g with the SSSE3 dispatch flag forced off
+	Op      string `json:"op,omitempty"` // encode, reconstruct
+	G       int    `json:"g,omitempty"`
+	Gran    string `json:"gran,omitempty"`  // kernel, stmt
+	Bound   int    `json:"bound,omitempty"` // preemption bound (-1 = unbounded)
+	Prefix  []int  `json:"prefix,omitempty"`
+	Split   int    `json:"split,omitempty"`
+	Odd     bool   `json:"odd,omitempty"`     // every input shard is a sub-slice starting at an odd offset of a larger buffer (as slices found displaced in a damaged file are)
+	NoSSSE3 bool   `json:"nossse3,omitempty"` // partition / par2g with the SSSE3 dispatch flag forced off
 }
 
 // c12SchedRun / c12SchedGen are provided by the overlay (vsched) build.
